@@ -236,6 +236,11 @@ def o2_run_test_ladder(chk: Check) -> None:
     if not emissions:
         raise Undecided("no ScenarioFinished emission found in run_test")
     classify = classify_enum("Status")
+    # the scenario status variable: the Name handed to the closing emission
+    svars = {a.id for _nid, a in emissions if isinstance(a, ast.Name)}
+    if len(svars) != 1:
+        raise Undecided(f"scenario status variable not recognised ({sorted(svars)})")
+    SV = next(iter(svars))
     for h in t.handlers:
         classes = handler_classes(h)
         label = ", ".join(c.rsplit(".", 1)[-1] for c in classes)
@@ -244,7 +249,7 @@ def o2_run_test_ladder(chk: Check) -> None:
             continue
         is_skip = all(c in SKIP_CLASSES or c.rsplit(".", 1)[-1] == "SkipTest" for c in classes)
         is_ki = all(c.rsplit(".", 1)[-1] == "KeyboardInterrupt" for c in classes)
-        states = propagate(g, "status", entry, {UNASSIGNED}, classify)
+        states = propagate(g, SV, entry, {UNASSIGNED}, classify)
         reached = [(nid, arg) for nid, arg in emissions if nid in states]
         construct = f"except {label} -> status at ScenarioFinished"
         if not reached:
@@ -255,7 +260,7 @@ def o2_run_test_ladder(chk: Check) -> None:
             m = enum_member(arg, "Status")
             if m is not None:
                 values.add(m)
-            elif isinstance(arg, ast.Name) and arg.id == "status":
+            elif isinstance(arg, ast.Name) and arg.id == SV:
                 values |= states[nid]
             else:
                 values.add(UNKNOWN)
@@ -327,7 +332,7 @@ def o2_run_test_ladder(chk: Check) -> None:
     if b is not None:
         blk, idx = b
         for s in iter_stmts(blk[idx + 1:]):
-            if isinstance(s, ast.Assign) and any(isinstance(x, ast.Name) and x.id == "status" for x in s.targets):
+            if isinstance(s, ast.Assign) and any(isinstance(x, ast.Name) and x.id == SV for x in s.targets):
                 m = enum_member(s.value, "Status")
                 construct = f"post-try {norm(s)}"
                 if m in ("FAILURE", "ERROR"):
@@ -340,7 +345,7 @@ def o2_run_test_ladder(chk: Check) -> None:
     # continue_on_failure: failures recorded by checks but not raised must still fail the scenario
     post = [n for n in walk_body(fn.node) if isinstance(n, ast.If) and "continue_on_failure" in unparse(n.test, 500)]
     ok = any(
-        "recorder.checks" in unparse(n.test, 500) and "Status.FAILURE" in unparse(n.test, 500)
+        ".checks" in unparse(n.test, 500) and "Status.FAILURE" in unparse(n.test, 500)
         and any(isinstance(s, ast.Assign) and enum_member(s.value, "Status") == "FAILURE" for s in n.body)
         for n in post
     )
@@ -646,7 +651,11 @@ def o5_exit_code(chk: Check) -> None:
     # _execute
     ex = P.func("cli/commands/run/executor.py:_execute")
     last = ex.node.body[-1]
-    ok = isinstance(last, ast.Expr) and isinstance(last.value, ast.Call) and dotted(last.value.func) == "sys.exit" and last.value.args and unparse(last.value.args[0]) == "ctx.exit_code"
+    cxs = defined_by(ex, "$v = ExecutionContext(...)")
+    if not cxs:
+        raise Undecided("_execute: ExecutionContext(...) not found")
+    CX = cxs[0]
+    ok = isinstance(last, ast.Expr) and isinstance(last.value, ast.Call) and dotted(last.value.func) == "sys.exit" and last.value.args and unparse(last.value.args[0]) == f"{CX}.exit_code"
     if ok:
         chk.ok("C05.O5", ex, "sys.exit(ctx.exit_code) at the end of _execute", "", ex.loc(last))
     else:
@@ -654,7 +663,7 @@ def o5_exit_code(chk: Check) -> None:
         chk.decide(None if exits else False, "C05.O5", ex, "sys.exit(ctx.exit_code) at the end of _execute", "the process no longer exits with the accumulated exit code", ex.loc(last))
     # on_event precedes handlers in the event loop and is unconditional
     g = cfg_of(ex)
-    oe = [c for c in body_calls(ex) if dotted(c.func) == "ctx.on_event"]
+    oe = [c for c in body_calls(ex) if dotted(c.func) == f"{CX}.on_event"]
     loops = [n for n in walk_body(ex.node) if isinstance(n, ast.For) and "event_stream" in names_in(n.iter)]
     if oe and loops:
         first = loops[0].body[0]
